@@ -131,6 +131,16 @@ def opPOS (args : List String) (res : List String) : Findings := Id.run do
     fs := expectEq fs 'O' "len" implLen (toString specMoves.length)
     fs := expectEq fs 'O' "hint" implHint s!"{specMoves.length}/{specMoves.length}"
     if implLq != "1" then fs := fs.push (fO "lq" "legal_quick false on a generated move")
+    -- the single-move legality query on every geometrically plausible triple (a superset of the legal moves):
+    -- it must accept exactly the legal moves
+    match field? res "lgq" with
+    | none => pure ()
+    | some "SAME" => pure ()      -- accepted exactly the generated moves, which are judged above
+    | some "PANIC" => fs := fs.push (fO "legal" "Board::legal panicked on a plausible triple")
+    | some l => match moveList? l with
+      | none => fs := fs.push ⟨'E', "parse", "bad lgq list"⟩
+      | some acc => if !sameMoveSet acc specMoves then
+          fs := fs.push (fO "legal" s!"legal() accepts {showMoveList (sortMoves acc)} among the plausible triples, fide={showMoveList (sortMoves specMoves)}")
     if implEnum != "SKIP" ∧ implEnum != toString specMoves.length then
       fs := fs.push (fO "enum" s!"enumerate_moves gave {implEnum}")
     fs := expectEq fs 'O' "sane" implSane "1"
